@@ -409,9 +409,13 @@ package proxy
 // body of the previous one has been discarded (bodypending(b): the request body still
 // unread on buffered reader b) - otherwise its bytes would be parsed as a request.
 //@ spec func specProxy(p ptr) bool = p.cfg != nil && aset(p.cfg.Proxy.RetryOnInvalidRange.value) && specFetcher(p.fetch) && p.ca != nil
-//@ props C10 C16
+// The certificate asked for is the one for the CONNECT target, and it is the one the TLS
+// server side of the tunnel presents.
+//@ props C10 C16 C11
 //@ func Proxy.handleCONNECT
 //@   requires specProxy(p) && proxyReq != nil
+//@   ghost callsite-requires [C11] GetCertForHost sid(arg_host) == sid(proxyReq.Host)
+//@   ghost callsite-requires [C11] Server arg_config != nil && len(arg_config.Certificates) == 1 && arg_config.Certificates[0].Leaf == local(tlsCert).Leaf
 //@   loop 1 invariant specProxy(p) && tlsConn != nil
 //@   loop 1 invariant [C10] connreader(tlsConn) == 0 || connreader(tlsConn) == connReader
 //@   loop 1 invariant [C10] bodypending(connReader) == 0
